@@ -857,6 +857,66 @@ def rule_spin_axis(chk, prog):
 
 
 # ----------------------------------------------------------------------------
+# rule 11: forward and backward feature transforms are evaluated at the same point
+# ----------------------------------------------------------------------------
+def _inline_point(fn, e, at, depth=0):
+    """text of the expression with single reaching-assignment locals inlined (X0T_sum -> X0T.mean(0))"""
+    if isinstance(e, ast.Name) and depth < 3:
+        d = er.reaching_assign(fn, e.id, at)
+        if d is not None and not isinstance(d.value, ast.Call) or (
+                d is not None and isinstance(d.value, ast.Call) and isinstance(d.value.func, ast.Attribute)
+                and d.value.func.attr in ("mean", "sum", "copy")):
+            return _inline_point(fn, d.value, d, depth + 1)
+    return pf.src(e).replace(" ", "")
+
+
+def rule_fwd_bwd_point(chk, prog):
+    per_class = {}
+    for rel, cname in ((XE, "KernelEvalBase"), (XE2, "KernelEvalBase2")):
+        mod = prog.module(rel)
+        er.register_str_consts(mod)
+        cls = mod.cls(cname)
+        fwd, bwd = {}, {}
+        for m, c in prog.mro(mod, cls):
+            for mname, fn in pf.methods(c).items():
+                for call in pf.walk_no_nested(fn):
+                    if not (isinstance(call, ast.Call) and isinstance(call.func, ast.Attribute)
+                            and call.func.attr in ("fill_vals_", "fill_derivs_") and call.args):
+                        continue
+                    point = _inline_point(fn, call.args[-1], call)
+                    modes, _ = er.split_conditions(call)
+                    tgt = fwd if call.func.attr == "fill_vals_" else bwd
+                    for md in modes:
+                        tgt.setdefault(md, {}).setdefault(point, (mname, call))
+        if not fwd or not bwd:
+            raise core.AnalysisError("%s: fill_vals_/fill_derivs_ calls not found" % cname)
+        per_class[cname] = (rel, fwd, bwd)
+        for md in er.MODES:
+            f_, b_ = fwd.get(md, {}), bwd.get(md, {})
+            inst = "%s mode %s: fill_derivs_ linearises at the point fill_vals_ was evaluated at" % (cname, md)
+            if set(f_) == set(b_):
+                chk.ok("fwd-bwd-point", inst, detail=", ".join(sorted(f_)))
+            else:
+                odd = sorted(set(b_) - set(f_)) or sorted(set(f_) - set(b_))
+                mname, call = (b_.get(odd[0]) or f_.get(odd[0]))
+                chk.violation("fwd-bwd-point", rel, "%s.%s" % (cname, mname), pf.src(call)[:110], call.lineno,
+                              "mode %s: the descriptors are computed by fill_vals_ at %s but their derivative is "
+                              "propagated back by fill_derivs_ at %s: the chain rule is applied at a different "
+                              "point than the one the model was evaluated at" % (md, sorted(f_), sorted(b_)),
+                              instance=inst)
+    (c1, (r1, f1, b1)), (c2, (r2, f2, b2)) = sorted(per_class.items())
+    for md in er.MODES:
+        inst = "mode %s: %s and %s evaluate the feature transforms at the same points" % (md, c1, c2)
+        if set(f1.get(md, {})) == set(f2.get(md, {})) and set(b1.get(md, {})) == set(b2.get(md, {})):
+            chk.ok("fwd-bwd-point", inst, nontrivial=False)
+        else:
+            chk.note("fwd-bwd-point", "%s / %s" % (r1, r2), "mode %s: the twin classes use different points: %s vs %s"
+                     % (md, sorted(set(f1.get(md, {})) | set(b1.get(md, {}))),
+                        sorted(set(f2.get(md, {})) | set(b2.get(md, {})))))
+            chk.ok("fwd-bwd-point", inst + " (differ, noted)", nontrivial=False)
+
+
+# ----------------------------------------------------------------------------
 # rule 6: mode ladders
 # ----------------------------------------------------------------------------
 LADDER_CLASSES = ((XE, "KernelEvalBase"), (XE, "MappedDFTKernel"), (XE2, "KernelEvalBase2"),
@@ -947,6 +1007,9 @@ def _analyse_own(chk):
         c_, prog, list(LADDER_CLASSES) + [(m_.rel, k_.name) for m_, k_ in evaluator_classes(prog)]))
     chk.floor("stale-loop-var", 4, "methods with loops in the evaluator base classes and FuncEvaluator subclasses")
     chk.guard(rule_mode_ladders, prog)
+    chk.rule("fwd-bwd-point", "per spin mode, fill_derivs_ receives the same input point as fill_vals_")
+    chk.guard(rule_fwd_bwd_point, prog)
+    chk.floor("fwd-bwd-point", 3, "2 classes x 3 modes")
     chk.rule("spin-axis", "a test `A.shape[0] == k` standing for k spin channels is tied to the rank of A or to the "
                           "spin mode; the twin mapped kernels apply the same duplicated-channel factor")
     chk.guard(rule_spin_axis, prog)
@@ -1053,6 +1116,13 @@ def mutants(tree):
                "        elif dres.shape != full_shape:", "        elif dres.shape != X1.shape:", expect="shape-guard"),
         Mutant("RBFEvaluator: scratch gradient never scattered into dres", XE,
                "        dres[..., self._indexes] += dsub\n", "", expect=None),
+        Mutant("v2 NPOL: derivative propagated at the first channel instead of the spin mean", XE2,
+               "self.feature_list.fill_derivs_(dfdX0T[0], dfdX1.T, X0T.mean(0))",
+               "self.feature_list.fill_derivs_(dfdX0T[0], dfdX1.T, X0T[0])", expect="fwd-bwd-point"),
+        Mutant("v1 NPOL: descriptors evaluated at the spin sum, derivative at the mean", XE,
+               "            X0T_sum = X0T.mean(0)\n            X1 = np.zeros((Nsamp, N1))\n            self.feature_list.fill_vals_(X1.T, X0T_sum)\n        else:\n            raise NotImplementedError\n        if force_polarize",
+               "            X0T_sum = X0T.sum(0)\n            X1 = np.zeros((Nsamp, N1))\n            self.feature_list.fill_vals_(X1.T, X0T_sum)\n        else:\n            raise NotImplementedError\n        if force_polarize",
+               expect="fwd-bwd-point"),
         Mutant("linear evaluator overwrites res", XE, "res[:] += X1.dot(self.consts)", "res[:] = X1.dot(self.consts)",
                expect="accumulate-py"),
         Mutant("spline evaluator overwrites dres columns", XE, "dres[:, ind_set] += dy * self.scale[t]",
